@@ -28,29 +28,37 @@ def extra(cases, verdicts):
     inthm_ex = sum(1 for c in cases if verdicts.get(c["id"], {}).get("info", {}).get("in_completeness_theorem")
                    and verdicts.get(c["id"], {}).get("info", {}).get("exists_feasible"))
     multiwin = sum(1 for c in cases if c.get("job") and sum(len(p["tws"]) for p in c["job"]["places"]) > 1)
+    iv = [c for c in cases if c.get("k") == "iv"]
+    ivinfo = lambda c: verdicts.get(c["id"], {}).get("info", {})
+    iv_shape = {"cases_with_reload_markers": len(iv),
+                "intervals_per_tour_hist": {str(k): sum(1 for c in iv if ivinfo(c).get("intervals") == k) for k in range(1, 6)},
+                "within_hypotheses_of_interval_soundness_theorem": sum(1 for c in iv if ivinfo(c).get("in_soundness_theorem")),
+                "with_a_feasible_position": sum(1 for c in iv if ivinfo(c).get("exists_feasible"))}
     return {"input_shape": {"open_tours": n_open, "closed_tours": len(cases) - n_open, "exists_feasible_position": ex,
                             "impl_any_success": anyok,
                             "cases_within_hypotheses_of_completeness_theorem": inthm,
-                            "of_these_with_a_feasible_position": inthm_ex, "jobs_with_several_windows_or_places": multiwin,
+                            "of_these_with_a_feasible_position": inthm_ex, "jobs_with_several_windows_or_places": multiwin, "reload_interval_stream": iv_shape,
                             "tour_len_hist": {str(k): sum(1 for c in cases if len(c["tour"]) == k) for k in range(0, 7)}}}
 
 
 CLAIMED = True
 
 PROP = dict(
-    proof_modules=["VrpProofs.C06", "VrpProofs.C06Cap", "VrpProofs.C06CapVec", "VrpProofs.C06Complete", "VrpProofs.C06Multi"], model_modules=["VrpModel.Route", "VrpModel.C06", "VrpModel.C06Multi"],
+    proof_modules=["VrpProofs.C06", "VrpProofs.C06Cap", "VrpProofs.C06CapVec", "VrpProofs.C06Complete", "VrpProofs.C06Multi", "VrpProofs.C06Iv"], model_modules=["VrpModel.Route", "VrpModel.C06", "VrpModel.C06Multi", "VrpModel.C06Iv"],
     drv="drv_c06", bin="c06", compare=compare, nontrivial=nontrivial, extra_evidence=extra,
     rule="tours of 0..6 activities feasible by construction (windows placed around the simulated arrival with slack 0..1000, "
          "capacity = max load + 0..5), open and closed, static/dynamic/replacement/mixed demand in 1-2 dimensions, candidate job with "
          "1-2 places x 1-3 windows (sorted or not); evaluated for Any and every Concrete(p). Non-trivial: tour has >= 2 activities and the "
          "job has both accepted and rejected positions. Distinct = SHA-256 of the canonical case input",
     modelled="TransportConstraint::evaluate_job/evaluate_activity, update_schedules/update_states (latest arrival), has_demand_violation + "
-             "recalculate_states (no reload markers), eval_job_insertion_in_route/eval_single/analyze_insertion_in_route(_leg) with "
+             "recalculate_states (without markers: C06; with reload markers, i.e. per route interval with the load carried across a reload, CapacitatedMultiTrip::recalculate_states / "
+             "evaluate_activity / can_handle_demand_on_intervals and RouteIntervals::get_marker_intervals: C06Iv), eval_job_insertion_in_route/eval_single/analyze_insertion_in_route(_leg) with "
              "LegSelection::Exhaustive + BestResultSelector, route/activity cost layers (unassigned, tours, distance or cost)",
     traced="eval_multi (multi-task jobs): the greedy search itself is not modelled; its result is checked twice - the placements pass the "
            "simulation (soundness only, as the property states) and every step of the sequence is accepted by the model's activity-level "
            "evaluation on the tour that already holds the previous steps (acceptedSeq), for which soundness is a theorem (acceptedSeq_sound)",
-    out_of_model="LegSelection::Stochastic sampling, time-dependent routing, reload intervals (C01 campaign), f64 rounding (integer data)",
+    out_of_model="LegSelection::Stochastic sampling, time-dependent routing, dynamic demand of a non-multi job on tours with reload markers "
+                 "(a shape the readers never produce), marker removal/promotion in accept_solution_state (C04/C05 histories), f64 rounding (integer data)",
     assumptions=["harness goal: features [min-unassigned, min-tours, transport(time constrained), capacity] in this order",
                  "capacity soundness is proved for any number of dimensions under WF n (all load vectors of a case have the same length, as "
                  "MultiDimLoad guarantees and the harness pads)"],
@@ -68,7 +76,9 @@ META = dict(
          "leg, so no leg before an admissible one stops the scan -, evalActivity_ok_of_feasible, route_precheck_vec, evalRoute_of_feasible, "
          "scanLegs_finds_upto, evalJob_any_complete; evalJob_any_complete_spec: existsFeasible => Any succeeds); sequences of insertions, each evaluated on the tour that already holds the previous "
          "ones (how eval_multi places pickup-and-delivery jobs): evalActivity_sound, acceptedSeq_sound, acceptedSeq_sound_hyps, pickup_delivery_sound "
-         "(C06Multi: every accepted sequence ends in a tour the simulation finds feasible; an `example` shows the index bound i <= tour length is needed); capacity: the test on cached max-past/max-future/current implies the full load profile stays within "
+         "(C06Multi: every accepted sequence ends in a tour the simulation finds feasible; an `example` shows the index bound i <= tour length is needed); tours with reload markers (C06Iv): capIv_sound (the interval test `none` for a static demand implies that the step-by-step simulation WITH reload "
+         "events keeps every interval within capacity, any number of dimensions and intervals, carried load of any sign), evalJobIv_sound (whatever the scan "
+         "returns passes the simulation), evalJobIv_noMarkers (without markers the interval evaluator IS the plain one); capacity: the test on cached max-past/max-future/current implies the full load profile stays within "
          "capacity for every demand shape, in every dimension (cap_sound1 for one dimension; cap_sound_vec for the executable vector model with any "
          "number of dimensions; cap_complete1 / cap_exact1: on a tour with non-negative loads and for demands without a static pickup next to a "
          "larger dynamic delivery the O(1) test refuses nothing the profile admits, the caches being attained - runMax1_attained, "
@@ -81,6 +91,7 @@ META = dict(
          "hypotheses only: non-negative travel times and durations, a feasible base tour with non-negative loads, and in every dimension no "
          "static pickup next to a larger dynamic delivery (the shapes the readers produce; `example`s show that both capacity hypotheses are "
          "needed - without them the real O(1) test is incomplete by design). Partial: for multi-task jobs the greedy search of eval_multi is traced, not modelled (soundness of any accepted "
-         "sequence is the theorem acceptedSeq_sound, applied to the implementation's own sequences by the oracle model_accepts_every_step), reload intervals and stochastic leg sampling are outside the model.",
+         "sequence is the theorem acceptedSeq_sound, applied to the implementation's own sequences by the oracle model_accepts_every_step), stochastic leg sampling is outside the model; on tours with reload markers completeness is decided by the oracle only "
+         "(complete_any / complete_concrete held on every generated case).",
     technique="Lean 4 induction over tour suffixes (omega) + exact differential correspondence with the real evaluator + brute-force simulation oracle",
 )
